@@ -47,6 +47,9 @@ func vfC22Diagnose(kind, msg, stack string, res *vfResult, q *vfQuery, cols []st
 			strings.Contains(stack, "(*Compatible).source2Has") && strings.Contains(strategy, "union-disjoint(") {
 			return "union-disjoint-lookup-source2Has"
 		}
+		if strings.Contains(stack, "(*Intersect).Lookup") && (strings.Contains(msg, "Sels.Get can't find") || strings.Contains(msg, "selOrg not full")) {
+			return "intersect-with-singleton-lookup-without-selections"
+		}
 	case "order":
 		if vfPackOrderPair {
 			return "packed-number-order-differs-from-value-order"
@@ -68,8 +71,17 @@ func vfC22Diagnose(kind, msg, stack string, res *vfResult, q *vfQuery, cols []st
 			return "summarize-record-after-transform"
 		}
 	case "rows":
-		if subsetBy && strings.Contains(strategy, "semijoin-rev") && strings.HasSuffix(msg, "extra-only") {
+		c23 := strings.HasPrefix(msg, "c23") // Select / Lookup of a C23 call program
+		if subsetBy && strings.Contains(strategy, "semijoin-rev") {
 			return "semijoin-reverse-requirement-on-non-by-column"
+		}
+		if c23 && minmaxNoBy && strings.Contains(strategy, "summarize-idx") {
+			return "summarize-idx-select-on-aggregated-column"
+		}
+		if c23 && strings.Contains(strategy, " where ") && vfHasNode(q.root, func(n *vfNode) bool {
+			return n.op == "where" && vfHasEmptyAlternative(n.expr)
+		}) {
+			return "where-index-range-empty-value-overlap"
 		}
 		if strings.Contains(strings.ToLower(strategy), "nothing") && vfHasEmptyRangeInOr(q.root) {
 			return "where-or-with-empty-range-becomes-nothing"
@@ -85,7 +97,9 @@ func vfC22Diagnose(kind, msg, stack string, res *vfResult, q *vfQuery, cols []st
 			return "where-index-range-empty-value-overlap"
 		}
 		// the by-less min/max summarize is an operand of another operator and runs with the index strategy
-		if minmaxNoBy && q.root.op != "summarize" && strings.Contains(strategy, "summarize-idx") {
+		if strings.Contains(strategy, "summarize-idx") && vfHasNode(q.root, func(n *vfNode) bool {
+			return n != q.root && n.op == "summarize" && len(n.cols) == 0 && (slices.Contains(n.sops, "min") || slices.Contains(n.sops, "max"))
+		}) {
 			return "summarize-idx-select-on-aggregated-column"
 		}
 	}
